@@ -1,3 +1,4 @@
+import Vet.Props.C10Regen
 import Vet.Props.C10
 #print axioms Vet.C10_update_preserves_success_partial
 #print axioms Vet.C10_no_new_conflict_partial
@@ -5,3 +6,5 @@ import Vet.Props.C10
 #print axioms Vet.C10_chains_preserved
 #print axioms Vet.C10_counterexample_duplicate_keys
 #print axioms Vet.search_regenerate_total
+#print axioms Vet.C10_regenerate_never_missing_partial
+#print axioms Vet.C10_regenerate_chains_partial
